@@ -14,6 +14,7 @@ def gen_cases(ctx):
     cases = srv.load_corpus(ctx, 'C01')
     cases += srv.boundary_cases('tcp') + srv.boundary_cases('rtu')
     cases += srv.length_cases(r) + srv.all_fc_cases()
+    cases += srv.broadcast_rejected_cases(r, 24 if ctx.quick() else 200)
     if not ctx.quick():
         cases += srv.fc_length_sweep(r)
     n = 2200 if ctx.quick() else 12000
